@@ -652,9 +652,17 @@ func (w *worker) httpCase(base, id, q, tr, mode string) bool {
 
 func (w *worker) wsCase(base string, round int) {
 	for _, proto := range []string{"graphql-ws", "graphql-transport-ws"} {
-		for _, mode := range []string{"client-complete", "abrupt-close", "let-it-end", "silent-until-init-timeout", "server-close-in-flight", "server-close-in-flight", "server-close-in-flight", "subscription-directive-null"} {
+		for _, mode := range []string{"client-complete", "abrupt-close", "let-it-end", "silent-until-init-timeout", "server-close-in-flight", "server-close-in-flight", "server-close-in-flight", "subscription-directive-null", "subscription-directive-error"} {
 			d := websocket.Dialer{Subprotocols: []string{proto}}
 			var hdr http.Header
+			if mode == "subscription-directive-error" {
+				// the operation directive of the subscription refuses with an error
+				wsN++
+				id := fmt.Sprint("ws", wsN)
+				runs.Store(id, &univ.Run{Plan: &univ.SeedPlan{Seed: uint64(wsN), MaxList: 2, ForceDir: map[string]int{`|opd,"x"`: 1}}})
+				defer runs.Delete(id)
+				hdr = http.Header{"X-Run": []string{id}}
+			}
 			if mode == "subscription-directive-null" {
 				// the operation directive of the subscription answers (nil, nil) instead of calling next:
 				// there is no event stream to serve, the operation must end at once
@@ -713,7 +721,7 @@ func (w *worker) wsCase(base string, round int) {
 			if mode == "server-close-in-flight" {
 				sub = `subscription { ticks(n: 500) { vid rs bo { vid rs } } }`
 			}
-			if mode == "subscription-directive-null" {
+			if mode == "subscription-directive-null" || mode == "subscription-directive-error" {
 				sub = `subscription @opd(tag: "x") { ticks(n: 2) { vid } }`
 			}
 			c.WriteJSON(map[string]any{"type": start, "id": "1", "payload": map[string]any{"query": sub}})
